@@ -86,13 +86,26 @@ ALSO = {"C03:MarkAtUnknownRecord": ("C04",),              # a misplaced mark doe
         "C15:DaemonStopsMakingProgress": ("C16",)}
 
 
-def report(ck, prop, runs, bad):
-    """turn monitor verdicts into VIOLATION / KNOWN-FINDING, only for clauses of this property"""
+def history_from_replay(hj):
+    h = dict(hj)
+    h["messages"] = [{"body": m["body"].encode("latin1"), "sender": m["sender"].encode("latin1"), "rcpts": [x.encode("latin1") for x in m["rcpts"]]} for m in hj["messages"]]
+    h["script"] = [tuple(x) for x in hj["script"]]
+    for k in ("conc", "announce"):
+        if h.get(k):
+            h[k] = tuple(h[k])
+    return {k: v for k, v in h.items() if v is not None}
+
+
+def report(ck, prop, runs, bad, accept=None):
+    """turn monitor verdicts into VIOLATION / KNOWN-FINDING, only for clauses of this property (or, for histories whose only
+    unusual input belongs to this property, for the clause prefixes in `accept`)"""
     seen = set()
     other = {}
     for idx, why, pos, detail in bad:
         p = why.split(":")[0]
-        if p != prop and prop not in ALSO.get(":".join(why.split(":")[:2]), ()):
+        if accept is not None and (p in accept or ":".join(why.split(":")[:2]) in accept):
+            pass
+        elif p != prop and prop not in ALSO.get(":".join(why.split(":")[:2]), ()):
             other[why] = other.get(why, 0) + 1
             if os.environ.get("VERIF_DEBUG_VERDICTS"):
                 log("OTHER %s hist=%s pos=%d %s %s" % (why, runs[idx - 1]["h"].get("id"), pos, detail, [dict((k, v) for k, v in e.items() if v not in (0, "", []) and k not in ("b", "atab")) for e in runs[idx - 1]["ev"][max(0, pos - 8):pos]]))
